@@ -169,20 +169,20 @@ def run_harness(cmd, reqs, timeout_per_req=10.0, jobs=None, chunk=None, env=None
 _STATS = re.compile(r"(\d+) states generated, (\d+) distinct states found, (\d+) states left on queue")
 
 
+_ESC = re.compile(r"\\(.)", re.S)
+_ESC_MAP = {"n": "\n", "t": "\t", "r": "\r", "f": "\f"}
+
+
 def _unescape_tla(s):
     # TLC prints strings with \" and \\ escapes
-    out = []
-    i = 0
-    while i < len(s):
-        c = s[i]
-        if c == "\\" and i + 1 < len(s):
-            n = s[i + 1]
-            out.append({"n": "\n", "t": "\t", "r": "\r", "f": "\f"}.get(n, n))
-            i += 2
-        else:
-            out.append(c)
-            i += 1
-    return "".join(out)
+    if "\\" not in s:
+        return s
+    return _ESC.sub(lambda m: _ESC_MAP.get(m.group(1), m.group(1)), s)
+
+
+def decode_tagged(body):
+    """decode the raw body of a tagged line kept by run_tlc(raw_tags=...)"""
+    return json.loads(_unescape_tla(body))
 
 
 class TlcResult:
@@ -201,7 +201,7 @@ class TlcResult:
 
 
 def run_tlc(module, cfg=None, workers=None, timeout=600, env=None, simulate=None, depth=None,
-            tags=("REPLAY",), coverage=False, extra=(), deque=False, xss=False, heap="8g"):
+            tags=("REPLAY",), coverage=False, extra=(), deque=False, xss=False, heap="8g", raw_tags=()):
     """Run TLC on tla/<module>.tla with tla/<cfg>.cfg. Collects lines printed
     as <<"TAG", "json">> for each tag. Raises ToolError on crash/timeout;
     invariant/postcondition violations are reported in result.violation."""
@@ -250,6 +250,10 @@ def run_tlc(module, cfg=None, workers=None, timeout=600, env=None, simulate=None
             r.depth = int(re.search(r"is (\d+)", line).group(1))
         for t in tags:
             if line.startswith(pref[t]) and line.endswith('">>'):
+                if t in raw_tags:
+                    # the caller selects among the lines before decoding them (decode_tagged)
+                    r.tagged[t].append(line[len(pref[t]):-3])
+                    continue
                 body = _unescape_tla(line[len(pref[t]):-3])
                 try:
                     r.tagged[t].append(json.loads(body))
@@ -299,7 +303,13 @@ class Findings:
                 line = line.strip()
                 m = re.match(r"known: property=(\S+) key=(\S+) input=(\S+) :: (.*)", line)
                 if m and m.group(1) == pid:
-                    self.known[m.group(2)] = {"input": m.group(3), "what": m.group(4), "seen": False}
+                    # a pinned input may say which runtime it was pinned for ("backend": "vm" | "wasm" | "both")
+                    be = None
+                    try:
+                        be = json.load(open(os.path.join(VERIF, m.group(3)))).get("backend")
+                    except (OSError, ValueError):
+                        pass
+                    self.known[m.group(2)] = {"input": m.group(3), "what": m.group(4), "seen": False, "backend": be}
 
     def is_known(self, key):
         return key in self.known
@@ -337,6 +347,12 @@ class Check:
         """Report a failing case. `key` identifies the specific input; if it is
         listed in KNOWN_FINDINGS.txt the case is a known finding."""
         key = key or canon_key(replay_obj)
+        if self.findings.is_known(key):
+            pinned_be = self.findings.known[key].get("backend")
+            got_be = replay_obj.get("backend") if isinstance(replay_obj, dict) else None
+            if pinned_be in ("vm", "wasm") and got_be in ("vm", "wasm") and pinned_be != got_be:
+                # the finding is pinned for the other runtime: this failure is a different one
+                key = f"{key}-{got_be}"
         if self.findings.is_known(key):
             if not self.findings.known[key]["seen"]:
                 self.findings.mark(key)
